@@ -235,6 +235,39 @@ func (w *World) Field(short, typ, field string) *types.Var {
 			return v
 		}
 	}
+	// … or gathered into a small struct that is a (non-embedded) field of this one (Handler.auth.sess,
+	// Manager.gen.restart): a unique field of that name one or two levels down, in a type of the same package
+	var found []*types.Var
+	var search func(st *types.Struct, depth int)
+	search = func(st *types.Struct, depth int) {
+		for i := 0; i < st.NumFields(); i++ {
+			f := st.Field(i)
+			ft := f.Type()
+			if p, ok := ft.Underlying().(*types.Pointer); ok {
+				ft = p.Elem()
+			}
+			nt, ok := ft.(*types.Named)
+			if !ok || nt.Obj().Pkg() != n.Obj().Pkg() {
+				continue
+			}
+			inner, ok := nt.Underlying().(*types.Struct)
+			if !ok {
+				continue
+			}
+			for j := 0; j < inner.NumFields(); j++ {
+				if inner.Field(j).Name() == field {
+					found = append(found, inner.Field(j))
+				}
+			}
+			if depth < 1 {
+				search(inner, depth+1)
+			}
+		}
+	}
+	search(st, 0)
+	if len(found) == 1 {
+		return found[0]
+	}
 	fatalf("anchor: field %s.%s.%s not found", short, typ, field)
 	return nil
 }
